@@ -9,6 +9,8 @@ COQ_IMPORTS = ['Prims', 'CaseLib', 'BitsCore', 'Mutators', 'Search', 'Golomb', '
 RULE = ('every position-taking operation under options.lsb0=True (index, slice with any step, item/slice assignment and deletion, set, invert, find, rfind, findall, startswith, endswith, '
         'cut, replace, insert, overwrite, append, prepend, ranged reverse/byteswap, rol/ror, shifts, read/peek/unpack/pack order) compared with reverse(op_msb0(reverse(operands))) '
         'computed on the str reference; whole-value interpretations, ==, hash, len, bin compared across modes; toggle sequences between calls. '
+        'every way of making a bitstring (windows of bytes / BytesIO / bitarray / file / file-handle sources with offset= and length= on and off byte boundaries; every value keyword, auto initialiser, setter, copying and '
+        'position-free combining route) executed with lsb0 off and on, read with lsb0 off and on: stored bits, interpretations, ==, hash, len against a slice of the source str; '
         'exhaustive (start,stop,step,len) for len<=5 quick / 7 thorough; data > 8192 bits for the chunked reverse scan; non-trivial = non-palindromic content; distinct by arguments')
 ASSUMPTIONS = ['the msb0 reference semantics are those of C01/C03/C07 (tools/props/refmodel.py)']
 COQ_PRELUDE = '''Definition pe_eqb (a b : bits * option exn) : bool := bits_eqb (fst a) (fst b) && opt_eqb exn_eqb (snd a) (snd b).
@@ -136,13 +138,424 @@ def gen_cases(rng, tier):
         elif arity == -1 and vals: vals.pop()
         yield {'op': 'lsbpack', 'bits': '', 'toks': toks, 'vals': vals, 'split': sorted(rng.sample(range(1, len(toks)), min(len(toks) - 1, rng.choice([0, 0, 1, 2])))) if len(toks) > 1 else [],
                'cls': 'BitArray'}
+    yield from gen_construct(rng, tier)
 
-def kind(c): return c['op']
+# ---------------------------------------------------------------------------------------------------------------------------------
+# "Whole-value interpretations, ==, hash, len and the stored bit order are identical in both modes": every way of MAKING a bitstring
+# is executed once with options.lsb0 off and once with it on (in either order), and both objects are then read with the option off
+# and with it on.  Two families:
+#   windows  - a source of bits (bytes / bytearray / memoryview through bytes=, io.BytesIO, bitarrays of either endianness through
+#              bitarray=, a file by name / pathlib.Path, buffered / raw / read-write file handles) with offset= and / or length=, the
+#              window starting and ending on and off byte boundaries, empty, whole, and (a few) running off the end;
+#   values   - a given content through every keyword, auto initialiser, token string, setter of the mutable classes, copying route and
+#              combining operator that takes no position.
+# The expected content is a slice of a str of '0' / '1' (the source, most significant bit first); the interpretations come from int(),
+# int.to_bytes and struct.
+# ---------------------------------------------------------------------------------------------------------------------------------
+WINDOW_MEM = ['bytes_kw', 'bytearray_kw', 'memoryview_kw', 'bytesio', 'bytesio_pos', 'bitarray_kw', 'bitarray_kw_le']
+WINDOW_FILE = ['filename', 'path', 'fh_buffered', 'fh_raw', 'fh_rw']
+WINDOW_SRCS = WINDOW_MEM + WINDOW_FILE
+VALUE_SRCS = ['bin_kw', 'bin_kw_len', 'bin_prefixed', 'hex_kw', 'hex_kw_len', 'oct_kw', 'bytes_kw_plain', 'bytes_kw_len', 'uint_kw', 'int_kw', 'uintbe_kw', 'intbe_kw', 'uintle_kw', 'intle_kw', 'uintne_kw',
+              'float_kw', 'floatle_kw', 'bool_kw', 'bits_kw', 'bits_kw_str', 'auto_bin', 'auto_hex', 'auto_oct', 'auto_token_uint', 'auto_token_int', 'auto_token_bin', 'auto_tokens', 'auto_bytes', 'auto_bytearray',
+              'auto_memoryview', 'auto_bytesio', 'auto_bitarray', 'auto_bitarray_le', 'auto_frozenbitarray', 'auto_array_B', 'auto_array_H', 'auto_list', 'auto_tuple', 'auto_gen', 'auto_Bits', 'auto_BitArray',
+              'auto_ConstBitStream', 'auto_BitStream', 'auto_file', 'fromstring', 'zeros_int', 'zeros_len', 'copy', 'copy_method', 'deepcopy', 'pickle', 'slice_all', 'add', 'add_str', 'radd', 'mul', 'rmul', 'join', 'join_sep',
+              'invert', 'and', 'or', 'xor', 'dtype_build', 'dtype_build_bin', 'dtype_build_hex', 'dtype_build_bytes', 'pack_single', 'pack_bits', 'pack_uint', 'pack_hex', 'pack_bytes', 'pack_kw', 'setter_bin', 'setter_hex', 'setter_oct', 'setter_uint', 'setter_int', 'setter_bytes', 'setter_uintN', 'setter_bits',
+              'setter_float', 'imul', 'ior', 'clear_then_set', 'tobitarray_back', 'tobytes_back']
+
+def _raw(data):
+    return int(data, 2).to_bytes(len(data) // 8, 'big') if data else b''
+
+def _with_file(raw, fn):
+    import tempfile, os
+    fd, path = tempfile.mkstemp(prefix='verif_c12_')
+    try:
+        with os.fdopen(fd, 'wb') as fh: fh.write(raw)
+        return fn(path)
+    finally:
+        os.unlink(path)
+
+def mk_window(C, c):
+    """C(source, offset=, length=) for the source kind c['src'] holding the bits c['data']"""
+    import io, bitarray, pathlib
+    src, data = c['src'], c['data']
+    kw = {}
+    if c['offset'] is not None: kw['offset'] = c['offset']
+    if c['length'] is not None: kw['length'] = c['length']
+    def auto(x):
+        if c.get('argstyle') == 'pos': return C(x, c['length'], c['offset'])
+        return C(x, **kw)
+    if src in ('bitarray_kw', 'bitarray_kw_le'): return C(bitarray=bitarray.bitarray(data, endian='little' if src.endswith('_le') else 'big'), **kw)
+    raw = _raw(data)
+    if src == 'bytes_kw': return C(bytes=raw, **kw)
+    if src == 'bytearray_kw': return C(bytes=bytearray(raw), **kw)
+    if src == 'memoryview_kw': return C(bytes=memoryview(raw), **kw)
+    if src == 'bytesio': return auto(io.BytesIO(raw))
+    if src == 'bytesio_pos':
+        b = io.BytesIO(raw); b.read(len(raw) // 2)       # an initialiser that has been read from: still the whole buffer (offset counts from its start)
+        return auto(b)
+    if src == 'filename': return _with_file(raw, lambda p: C(filename=p, **kw))
+    if src == 'path': return _with_file(raw, lambda p: C(filename=pathlib.Path(p), **kw))
+    def fh(mode, **okw):
+        def g(p):
+            with open(p, mode, **okw) as h: return auto(h)
+        return _with_file(raw, g)
+    if src == 'fh_buffered': return fh('rb')
+    if src == 'fh_raw': return fh('rb', buffering=0)
+    if src == 'fh_rw': return fh('r+b')
+    raise AssertionError(src)
+
+def window_ref(c):
+    """the bits the window holds, or None when it runs off the end of the source (then only agreement between the modes is demanded)"""
+    d = c['data']; o = c['offset'] or 0; l = c['length']
+    if o > len(d) or (l is not None and o + l > len(d)): return None
+    return d[o:] if l is None else d[o:o + l]
+
+def value_ok(src, w, cls):
+    """can the content w be made through the route src (for class cls)?"""
+    n = len(w)
+    if (src.startswith('setter_') or src in ('imul', 'ior', 'clear_then_set')) and cls not in MUTABLE: return False
+    if src in ('hex_kw', 'hex_kw_len', 'auto_hex', 'setter_hex', 'dtype_build_hex', 'pack_hex'): return n % 4 == 0 and (n > 0 or src == 'hex_kw')
+    if src in ('dtype_build_bytes', 'pack_bytes'): return n % 8 == 0 and n > 0
+    if src in ('oct_kw', 'auto_oct', 'setter_oct'): return n % 3 == 0 and n > 0
+    if src in ('bytes_kw_plain', 'bytes_kw_len', 'auto_bytes', 'auto_bytearray', 'auto_memoryview', 'auto_bytesio', 'auto_array_B', 'setter_bytes', 'tobytes_back'): return n % 8 == 0
+    if src in ('auto_file', 'uintbe_kw', 'intbe_kw', 'uintle_kw', 'intle_kw', 'uintne_kw'): return n % 8 == 0 and n > 0
+    if src == 'auto_array_H': return n % 16 == 0
+    if src in ('uint_kw', 'int_kw', 'auto_token_uint', 'auto_token_int', 'dtype_build', 'setter_uint', 'setter_int', 'setter_uintN', 'auto_token_bin', 'dtype_build_bin', 'pack_single', 'pack_uint', 'pack_kw', 'mul', 'rmul', 'imul'): return n > 0
+    if src in ('float_kw', 'floatle_kw', 'setter_float'):
+        if n not in (16, 32, 64): return False
+        e = {16: 5, 32: 8, 64: 11}[n]
+        x = w if src != 'floatle_kw' else ''.join(reversed([w[i:i + 8] for i in range(0, n, 8)]))
+        return x[1:1 + e] != '1' * e                      # not a NaN / infinity (a NaN does not keep its payload through a Python float)
+    if src == 'bool_kw': return n == 1
+    if src in ('zeros_int', 'zeros_len'): return set(w) <= {'0'}
+    return True
+
+def mk_value(C, c):
+    """an object of class C holding c['data'], made through the route c['src'] (no positions involved anywhere)"""
+    import io, bitarray, array, copy, pickle, struct, bitstring
+    from bitstring import Bits, BitArray, Dtype, pack
+    src, w = c['src'], c['data']; n = len(w)
+    u = int(w, 2) if w else 0
+    si = u - (1 << n) if w[:1] == '1' else u
+    raw = _raw(w) if n % 8 == 0 else None
+    flip = lambda s: ''.join('1' if ch == '0' else '0' for ch in s)
+    h = n // 2
+    if src == 'bin_kw': return C(bin=w)
+    if src == 'bin_kw_len': return C(bin=w, length=n)
+    if src == 'bin_prefixed': return C(bin='0b' + w)
+    if src == 'hex_kw': return C(hex=format(u, f'0{n // 4}x') if n else '')
+    if src == 'hex_kw_len': return C(hex='0x' + format(u, f'0{n // 4}x'), length=n)
+    if src == 'oct_kw': return C(oct=format(u, f'0{n // 3}o'))
+    if src == 'bytes_kw_plain': return C(bytes=raw)
+    if src == 'bytes_kw_len': return C(bytes=raw, length=n)
+    if src == 'uint_kw': return C(uint=u, length=n)
+    if src == 'int_kw': return C(int=si, length=n)
+    if src == 'uintbe_kw': return C(uintbe=u, length=n)
+    if src == 'intbe_kw': return C(intbe=si, length=n)
+    if src == 'uintle_kw': return C(uintle=int.from_bytes(raw, 'little'), length=n)
+    if src == 'intle_kw': return C(intle=int.from_bytes(raw, 'little', signed=True), length=n)
+    if src == 'uintne_kw':
+        import sys
+        return C(uintne=int.from_bytes(raw, sys.byteorder), length=n)
+    if src in ('float_kw', 'setter_float'):
+        v = struct.unpack({16: '>e', 32: '>f', 64: '>d'}[n], _raw(w))[0]
+        if src == 'float_kw': return C(float=v, length=n)
+        o = C(n); o.float = v; return o
+    if src == 'floatle_kw': return C(floatle=struct.unpack({16: '<e', 32: '<f', 64: '<d'}[n], _raw(w))[0], length=n)
+    if src == 'bool_kw': return C(bool=w == '1')
+    if src == 'bits_kw': return C(bits=Bits(bin=w))
+    if src == 'bits_kw_str': return C(bits='0b' + w if w else '')
+    if src == 'auto_bin': return C('0b' + w) if w else C('')
+    if src == 'auto_hex': return C('0x' + format(u, f'0{n // 4}x'))
+    if src == 'auto_oct': return C('0o' + format(u, f'0{n // 3}o'))
+    if src == 'auto_token_uint': return C(f'uint:{n}={u}')
+    if src == 'auto_token_int': return C(f'int{n}={si}')
+    if src == 'auto_token_bin': return C(f'bin:{n}={w}')
+    if src == 'auto_tokens':
+        # several tokens in one string: the first token is the most significant part in both modes
+        a, b = w[:h], w[h:]
+        toks = ([f'0b{a}'] if a else []) + ([f'uint:{len(b)}={int(b, 2)}'] if b else [])
+        return C(', '.join(toks))
+    if src == 'auto_bytes': return C(raw)
+    if src == 'auto_bytearray': return C(bytearray(raw))
+    if src == 'auto_memoryview': return C(memoryview(raw))
+    if src == 'auto_bytesio': return C(io.BytesIO(raw))
+    if src == 'auto_bitarray': return C(bitarray.bitarray(w))
+    if src == 'auto_bitarray_le': return C(bitarray.bitarray(w, endian='little'))
+    if src == 'auto_frozenbitarray': return C(bitarray.frozenbitarray(w))
+    if src == 'auto_array_B': return C(array.array('B', raw))
+    if src == 'auto_array_H':
+        a = array.array('H'); a.frombytes(raw); return C(a)
+    if src == 'auto_list': return C([int(ch) for ch in w])
+    if src == 'auto_tuple': return C(tuple(ch == '1' for ch in w))
+    if src == 'auto_gen': return C(ch == '1' for ch in w)
+    if src.startswith('auto_') and src[5:] in CLASSES: return C(cls_of(src[5:])(bin=w))
+    if src == 'auto_file':
+        def g(p):
+            with open(p, 'rb') as fh: return C(fh)
+        return _with_file(raw, g)
+    if src == 'fromstring': return C.fromstring('0b' + w if w else '')
+    if src == 'zeros_int': return C(n)
+    if src == 'zeros_len': return C(length=n)
+    if src == 'copy': return copy.copy(C(bin=w))
+    if src == 'copy_method': return C(bin=w).copy()
+    if src == 'deepcopy': return copy.deepcopy(C(bin=w))
+    if src == 'pickle': return pickle.loads(pickle.dumps(C(bin=w)))
+    if src == 'slice_all': return C(bin=w)[:]
+    if src == 'add': return C(bin=w[:h]) + BitArray(bin=w[h:])
+    if src == 'add_str': return C(bin=w[:h]) + ('0b' + w[h:] if w[h:] else '')
+    if src == 'radd': return ('0b' + w[:h] if w[:h] else '') + C(bin=w[h:])
+    if src in ('mul', 'rmul', 'imul'):
+        k = next(k for k in (4, 3, 2, 1) if n % k == 0 and w == w[:n // k] * k)
+        if src == 'mul': return C(bin=w[:n // k]) * k
+        if src == 'rmul': return k * C(bin=w[:n // k])
+        o = C(bin=w[:n // k]); o *= k; return o
+    if src == 'join': return C().join([Bits(bin=w[:h]), '0b' + w[h:] if w[h:] else ''])
+    if src == 'join_sep':
+        t = n // 3
+        return C(bin=w[t:2 * t]).join([Bits(bin=w[:t]), BitArray(bin=w[2 * t:])])
+    if src == 'invert': return ~C(bin=flip(w)) if w else C(bin=w)
+    if src == 'and': return (C(bin=w) & Bits(bin='1' * n)) if w else C(bin=w)
+    if src == 'or': return (C(bin='0' * n) | Bits(bin=w)) if w else C(bin=w)
+    if src == 'xor': return (C(bin=flip(w)) ^ ('0b' + '1' * n)) if w else C(bin=w)
+    if src == 'dtype_build': return C(Dtype('uint', n).build(u))
+    if src == 'dtype_build_bin': return C(Dtype('bin', n).build(w))
+    if src == 'pack_single': return C(pack(f'bin:{n}', w))
+    if src == 'pack_bits': return C(pack('bits', Bits(bin=w)))
+    if src == 'dtype_build_hex': return C(Dtype('hex', n).build(format(u, f'0{n // 4}x')))
+    if src == 'dtype_build_bytes': return C(Dtype('bytes', n // 8).build(raw))
+    if src == 'pack_uint': return C(pack(f'uint:{n}', u))
+    if src == 'pack_hex': return C(pack(f'hex:{n}', format(u, f'0{n // 4}x')))
+    if src == 'pack_bytes': return C(pack(f'bytes:{n // 8}', raw))
+    if src == 'pack_kw': return C(pack('int:n=v', n=n, v=si))
+    if src == 'setter_bin':
+        o = C('0b1'); o.bin = w; return o
+    if src == 'setter_hex':
+        o = C(); o.hex = format(u, f'0{n // 4}x'); return o
+    if src == 'setter_oct':
+        o = C(); o.oct = format(u, f'0{n // 3}o'); return o
+    if src == 'setter_uint':
+        o = C(n); o.uint = u; return o
+    if src == 'setter_int':
+        o = C(bin='1' * n); o.int = si; return o
+    if src == 'setter_bytes':
+        o = C(); o.bytes = raw; return o
+    if src == 'setter_uintN':
+        o = C('0xff'); setattr(o, f'uint{n}', u); return o
+    if src == 'setter_bits':
+        o = C(3); o.bits = Bits(bin=w); return o
+    if src == 'ior':
+        o = C(bin='0' * n)
+        if n: o |= Bits(bin=w)
+        return o
+    if src == 'clear_then_set':
+        o = C('0b101'); o.clear(); o.bin = w; return o
+    if src == 'tobitarray_back': return C(C(bin=w).tobitarray())
+    if src == 'tobytes_back': return C(C(bin=w).tobytes())
+    raise AssertionError(src)
+
+def ref_interp(w, cls):
+    """what an object of class cls holding the bits w shows, from int() / int.to_bytes / struct"""
+    import struct
+    n = len(w); u = int(w, 2) if w else None
+    pad = w + '0' * ((-n) % 8)
+    tb = _raw(pad).hex()
+    exp = {'bin': w, 'len': n, 'uint': u, 'int': None if u is None else (u - (1 << n) if w[0] == '1' else u), 'hex': (format(u, f'0{n // 4}x') if n else '') if n % 4 == 0 else None,
+           'oct': (format(u, f'0{n // 3}o') if n else '') if n % 3 == 0 else None, 'tobytes': tb, 'tobitarray': w, 'tofile': tb, 'bytes': tb if n % 8 == 0 else None,
+           'uintle': int.from_bytes(_raw(w), 'little') if n % 8 == 0 and n else None, 'intbe': int.from_bytes(_raw(w), 'big', signed=True) if n % 8 == 0 and n else None,
+           'float': struct.unpack({16: '>e', 32: '>f', 64: '>d'}[n], _raw(w))[0].hex() if n in (16, 32, 64) else None, 'bool': n > 0, 'count1': w.count('1'), 'all_any': [set(w) <= {'1'}, '1' in w],
+           'eq': [True, True, False, True], 'eq_flipped': [False, True] if n else None, 'pos': 0 if cls in ('ConstBitStream', 'BitStream') else None}
+    return exp
+
+def snap_interp(x, w):
+    """everything that is not a position, read from x; w is the content x should have (None: unknown, the comparisons are left out)"""
+    import io, bitstring
+    out = {}
+    def rec(k, fn):
+        try: out[k] = fn()
+        except BaseException as e:
+            if isinstance(e, (KeyboardInterrupt, SystemExit, Hang)): raise
+            out[k] = 'exc:' + exn_name(e)
+    n = None
+    try: n = len(x)
+    except Exception: pass
+    rec('bin', lambda: x.bin); rec('len', lambda: len(x))
+    rec('uint', lambda: x.uint if n else None); rec('int', lambda: x.int if n else None)
+    rec('hex', lambda: x.hex if n is not None and n % 4 == 0 else None); rec('oct', lambda: x.oct if n is not None and n % 3 == 0 else None)
+    rec('tobytes', lambda: x.tobytes().hex()); rec('tobitarray', lambda: x.tobitarray().to01())
+    def tofile():
+        f = io.BytesIO(); x.tofile(f); return f.getvalue().hex()
+    rec('tofile', tofile)
+    rec('bytes', lambda: x.bytes.hex() if n is not None and n % 8 == 0 else None)
+    rec('uintle', lambda: x.uintle if n and n % 8 == 0 else None); rec('intbe', lambda: x.intbe if n and n % 8 == 0 else None)
+    rec('float', lambda: x.float.hex() if n in (16, 32, 64) else None)
+    rec('bool', lambda: bool(x)); rec('count1', lambda: x.count(1)); rec('all_any', lambda: [x.all(1), x.any(1)])
+    if w is not None:
+        f = bitstring.Bits(bin=w)
+        rec('eq', lambda: [x == f, f == x, x != f, x == ('0b' + w if w else '')])
+        g = bitstring.BitArray(bin=w[:-1] + ('1' if w[-1] == '0' else '0')) if w else None
+        rec('eq_flipped', lambda: [x == g, x != g] if w else None)
+    rec('pos', lambda: getattr(x, 'pos', None))
+    rec('hash', lambda: hash(x) if not isinstance(x, bitstring.BitArray) else 'unhashable')
+    return out
+
+def run_construct(c):
+    import bitstring
+    C = cls_of(c['cls'])
+    w = window_ref(c) if c['src'] in WINDOW_SRCS else c['data']
+    def f():
+        out = {'href': hash(bitstring.Bits(bin=w)) if w is not None else None}
+        objs = {}
+        try:
+            for mode in c['order']:                      # the order in which the two objects are made
+                bitstring.options.lsb0 = (mode == 'lsb0')
+                try: objs[mode] = mk_window(C, c) if c['src'] in WINDOW_SRCS else mk_value(C, c)
+                except Exception as e:
+                    objs[mode] = None; out[mode] = ['err', exn_name(e)]
+            for mode, x in objs.items():
+                if x is None: continue
+                views = {}
+                for view in c['views']:                  # the order in which they are read
+                    bitstring.options.lsb0 = (view == 'lsb0')
+                    views[view] = snap_interp(x, w)
+                out[mode] = ['ok', views]
+            if objs.get('msb0') is not None and objs.get('lsb0') is not None:
+                a, b = objs['msb0'], objs['lsb0']
+                cross = {}
+                for view in ('lsb0', 'msb0'):
+                    bitstring.options.lsb0 = (view == 'lsb0')
+                    cross[view] = [a == b, b == a, a != b, a.bin == b.bin, a.tobytes() == b.tobytes(), len(a) == len(b)]
+                out['cross'] = cross
+        finally:
+            bitstring.options.lsb0 = False
+        return out
+    return attempt(f, 30)
+
+def describe_construct(c):
+    if c['src'] in WINDOW_SRCS:
+        d = c['data']
+        return (f"{c['cls']} made from a {c['src']} source of {len(d)} bits ({d[:48]}{'...' if len(d) > 48 else ''}) with offset={c['offset']} length={c['length']}"
+                f"{' (given positionally)' if c.get('argstyle') == 'pos' else ''}")
+    d = c['data']
+    return f"{c['cls']} holding {d[:48]!r}{'...' if len(d) > 48 else ''} ({len(d)} bits) made through the route {c['src']}"
+
+def oracle_construct(c, obs):
+    what = describe_construct(c) + f" (made in the order {c['order']}, read in the order {c['views']})"
+    if obs[0] != 'ok': return f"{what}: the harness could not run the case: {obs}"
+    o = obs[1]
+    w = window_ref(c) if c['src'] in WINDOW_SRCS else c['data']
+    if w is None:
+        # the window runs off the end of the source: whatever happens must happen in both modes
+        if o.get('msb0') != o.get('lsb0'):
+            return f"{what}: the window runs off the end of the source; with lsb0 off the outcome is {str(o.get('msb0'))[:300]}, with lsb0 on {str(o.get('lsb0'))[:300]}"
+        return None
+    exp = ref_interp(w, c['cls'])
+    hashes = set()
+    for mode in ('msb0', 'lsb0'):
+        r = o.get(mode)
+        if r is None or r[0] != 'ok': return f"{what}: made with lsb0 {'on' if mode == 'lsb0' else 'off'} the construction gives {r}; it must hold the bits {w[:64]!r} ({len(w)} bits)"
+        for view, sn in r[1].items():
+            bad = {k: (sn.get(k), v) for k, v in exp.items() if sn.get(k) != v}
+            if bad:
+                return (f"{what}: the object made with lsb0 {'on' if mode == 'lsb0' else 'off'} and read with lsb0 {'on' if view == 'lsb0' else 'off'} must hold {w[:64]!r}{'...' if len(w) > 64 else ''} ({len(w)} bits); "
+                        f"stored bits / whole-value interpretations / == differ, (observed, expected): {str(bad)[:600]}")
+            hashes.add(str(sn.get('hash')))
+    hexp = 'unhashable' if c['cls'] in MUTABLE else str(o['href'])
+    if hashes != {hexp}:
+        return f"{what}: hash() over the two objects and the two modes gives {sorted(hashes)}, the hash of Bits(bin=<the same bits>) is {hexp}"
+    for view, cr in o.get('cross', {}).items():
+        if cr != [True, True, False, True, True, True]:
+            return f"{what}: the object made with lsb0 off and the one made with lsb0 on, compared with lsb0 {'on' if view == 'lsb0' else 'off'} [a==b, b==a, a!=b, same bin, same bytes, same len]: {cr}"
+    return None
+
+def gen_construct(rng, tier):
+    thorough = tier != 'quick'
+    def rdata(nbits):
+        # never a palindrome and never the same at both ends, so that a window taken from the wrong end shows
+        while True:
+            d = rand_bits(rng, nbits, rng.choice(['rand', 'rand', 'rand', 'periodic', 'sparse']))
+            if nbits < 4 or (d != d[::-1] and (nbits < 16 or d[:8] != d[-8:])): return d
+    def modes():
+        return {'order': rng.choice([['msb0', 'lsb0'], ['lsb0', 'msb0']]), 'views': rng.choice([['msb0', 'lsb0'], ['lsb0', 'msb0']])}
+    def window(src, cls, data, off, ln):
+        c = {'op': 'construct', 'bits': data, 'cls': cls, 'src': src, 'data': data, 'offset': off, 'length': ln, 'argstyle': 'kw'}
+        if src in ('bytesio', 'bytesio_pos', 'fh_buffered', 'fh_raw', 'fh_rw') and rng.random() < 0.25: c['argstyle'] = 'pos'
+        c.update(modes()); return c
+    # 1. every source kind x windows on and off byte boundaries
+    k = 0
+    for rep in range(1 if not thorough else 12):
+        for src in WINDOW_SRCS:
+            is_ba = src.startswith('bitarray')
+            nb = rng.choice([1, 2, 3, 3, 4, 5, 8, 9, 17, 33] + ([130, 1100] if thorough else [130]))
+            total = 8 * nb if not is_ba else rng.choice([8 * nb, 8 * nb + rng.randrange(1, 8), rng.randrange(1, 8)])
+            data = rdata(total)
+            offs = [None, 0, 1, rng.randrange(2, 8), 8, rng.choice([9, 12, 15]), 16, rng.randrange(0, total + 1), 8 * rng.randrange(0, total // 8 + 1), total - 1, total]
+            pairs = []
+            for off in offs:
+                if off is not None and not 0 <= off <= total: continue
+                rem = total - (off or 0)
+                lens = [None, rem, rng.randrange(0, rem + 1), rng.choice([0, 1, 5, 7, 8, 9, 12, 16, 31])]
+                if rem: lens += [rem - 1, (rem // 8) * 8, max(0, (rem // 8) * 8 - (off or 0) % 8)]
+                for ln in (lens if thorough else rng.sample(lens, 3) + [None]):
+                    if ln is not None and ln > rem and rng.random() < 0.7: continue
+                    pairs.append((off, ln))
+            pairs += [(rng.randrange(0, total + 1), total + rng.choice([1, 8])), (total + rng.choice([1, 7, 8, 9]), rng.choice([None, 0, 1]))]       # off the end
+            # one of each shape for every source kind, whatever the sampling above did: start / end of the window on / off a byte boundary, start or end left out
+            must = [(None, total - 3), (0, 5), (None, 8), (3, None), (8, None), (8, 7), (5, 11), (5, 3), (5, total - 5), (3, total - 8), (8, 8), (16, 3), (9, 7)]
+            must = [(a, b) for a, b in must if (a or 0) <= total and (b is None or 0 <= b <= total - (a or 0))]
+            seen = set()
+            for off, ln in must + pairs:
+                if (off, ln) in seen: continue
+                seen.add((off, ln))
+                if not thorough and src in WINDOW_FILE and (off, ln) not in must and rng.random() < 0.6: continue
+                yield window(src, CLASSES[k % 4], data, off, ln); k += 1
+    # 2. one short source, every (offset, length): the whole small space for the in-memory kinds (thorough), a sample otherwise
+    for src in WINDOW_SRCS:
+        total = 24 if not src.startswith('bitarray') else 19
+        data = rdata(total)
+        combos = [(o, l) for o in [None] + list(range(total + 1)) for l in [None] + list(range(total + 1 - (o or 0)))]
+        if not thorough: combos = rng.sample(combos, 28 if src in WINDOW_MEM else 8)
+        elif src in WINDOW_FILE: combos = rng.sample(combos, 120)
+        for off, ln in combos:
+            yield window(src, CLASSES[k % 4], data, off, ln); k += 1
+    # 3. a given content through every route that takes no position
+    lens = [0, 1, 2, 3, 7, 8, 9, 12, 15, 16, 17, 24, 31, 32, 33, 48, 63, 64, 65, 100, 128]
+    for rep in range(4 if not thorough else 40):
+        for src in VALUE_SRCS:
+            for _try in range(30):
+                cls = CLASSES[k % 4] if _try < 4 else rng.choice(CLASSES)
+                n = 1 if src == 'bool_kw' else (rng.choice(lens) if _try else rng.choice([16, 32, 64, 24, 9, 12, 5]))
+                if src in ('zeros_int', 'zeros_len'): w = '0' * n
+                elif src in ('mul', 'rmul', 'imul') and rng.random() < 0.8:
+                    unit = rdata(rng.choice([1, 3, 8, 9])); w = unit * rng.choice([1, 2, 3, 4])
+                else: w = rdata(n)
+                k += 1
+                if value_ok(src, w, cls): break
+            else: continue
+            c = {'op': 'construct', 'bits': w, 'cls': cls, 'src': src, 'data': w, 'offset': None, 'length': None}
+            c.update(modes()); yield c
+    # long contents (beyond the 2000-bit threshold of hash() and beyond one search chunk) through the window sources and some value routes
+    for src in WINDOW_SRCS:
+        for total in ((2008, 8200) if thorough else (rng.choice([2008, 3608]),)):
+            data = rdata(total)
+            wins = [(None, None), (3, None), (None, total - 5), (5, 2001), (13, total - 13), (8, total - 16)]
+            for off, ln in (wins if thorough else rng.sample(wins, 2)):
+                yield window(src, CLASSES[k % 4], data, off, ln); k += 1
+    for src in ['bin_kw', 'auto_hex', 'auto_bytes', 'uint_kw', 'auto_bitarray', 'auto_list', 'add', 'join_sep', 'invert', 'pickle', 'copy', 'setter_bin', 'auto_file', 'mul']:
+        for n in ((2001, 2008, 3600, 8200) if thorough else (rng.choice([2001, 2008, 3600]),)):
+            n -= n % 24 if src in ('auto_hex', 'auto_bytes', 'auto_file') else 0
+            w = rdata(n) if src != 'mul' else rdata(n // 3) * 3
+            cls = rng.choice(MUTABLE if src.startswith('setter_') else CLASSES)
+            c = {'op': 'construct', 'bits': w, 'cls': cls, 'src': src, 'data': w, 'offset': None, 'length': None}
+            c.update(modes()); yield c
+
+def kind(c): return c['op'] if c['op'] != 'construct' else ('construct:' + ('window' if c['src'] in WINDOW_SRCS else 'value'))
 
 def run_impl(c):
     import bitstring
     from bitstring import Bits, BitArray, pack
     op = c['op']
+    if op == 'construct': return run_construct(c)
     B = lambda x: Bits(bin=x)
     if op == 'interp' or op == 'toggle':
         # whole-value interpretations / toggling
@@ -343,6 +756,7 @@ def mirror_expected(c):
         return ok(''.join(reversed(encs)))            # the first token is at the least significant (right-hand) end
 
 def oracle(c, obs):
+    if c['op'] == 'construct': return oracle_construct(c, obs)
     exp = mirror_expected(c)
     if exp is None: return None
     if c['op'] in ('set', 'invert') and obs[0] == 'ok' and exp[0] == 'ok':
@@ -362,6 +776,7 @@ def classify(c, obs):
 def cob(x): return copt(x, cz)
 
 def coq_check(c, obs):
+    if c['op'] == 'construct': return None          # no positions involved: the str / int / struct reference of the oracle decides
     op = c['op']; D = cbits(c['bits'])
     if op == 'lsbread':
         from props import c06
